@@ -107,19 +107,31 @@ func blockToSeqPair(alignedBlock alignedBlockInfo, ref []byte) alignPair {
 		// of the coordinate offset after the first one
 		offsets := make([]int, len(alignedBlock.seqpairArray))
 
+		// the number of reference positions that each (left-aligned) pair extends to
+		refLens := make([]int, len(alignedBlock.seqpairArray))
+		for j := range alignedBlock.seqpairArray {
+			for _, nuc := range alignedBlock.seqpairArray[j].ref {
+				if nuc != '-' {
+					refLens[j]++
+				}
+			}
+		}
+
 		// for every insertion
 		for _, insertion := range insertions {
 			// this is the pair it is already present in, which we will skip:
 			rowNumber := insertion.rowNumber
-			for j, seqPair := range alignedBlock.seqpairArray {
-				// don't reinsert - the insertion already exists in this one
+			for j := range alignedBlock.seqpairArray {
+				// don't reinsert - the insertion already exists in this one, but it does shift
+				// this pair's coordinates for the insertions that come after it
 				if j == rowNumber {
+					offsets[j] += insertion.length
 					continue
 				}
 
-				// if the insertions starts after the (offset) length of this sequence,
+				// if the insertions starts after the end of this sequence,
 				// we don't have to do anything to this pair here
-				if insertion.start > len(alignedBlock.seqpairArray[j].ref)-offsets[j] {
+				if insertion.start > refLens[j] {
 					continue
 				}
 
@@ -129,13 +141,21 @@ func blockToSeqPair(alignedBlock alignedBlockInfo, ref []byte) alignPair {
 					gaps[k] = '-'
 				}
 
-				refSeqArray[j] = refSeqArray[j][:insertion.start+offsets[j]]
-				refSeqArray[j] = append(refSeqArray[j], gaps...)
-				refSeqArray[j] = append(refSeqArray[j], seqPair.ref[insertion.start+offsets[j]:]...)
+				// NB build new slices: appending to a truncated slice would write into the array
+				// that it still shares with the other half of the same sequence
+				at := insertion.start + offsets[j]
 
-				queSeqArray[j] = seqPair.query[:insertion.start+offsets[j]]
-				queSeqArray[j] = append(queSeqArray[j], gaps...)
-				queSeqArray[j] = append(queSeqArray[j], seqPair.query[insertion.start+offsets[j]:]...)
+				newRef := make([]byte, 0, len(refSeqArray[j])+insertion.length)
+				newRef = append(newRef, refSeqArray[j][:at]...)
+				newRef = append(newRef, gaps...)
+				newRef = append(newRef, refSeqArray[j][at:]...)
+				refSeqArray[j] = newRef
+
+				newQue := make([]byte, 0, len(queSeqArray[j])+insertion.length)
+				newQue = append(newQue, queSeqArray[j][:at]...)
+				newQue = append(newQue, gaps...)
+				newQue = append(newQue, queSeqArray[j][at:]...)
+				queSeqArray[j] = newQue
 
 				// and we add the relevant offset to account for this insertion in future coordinates
 				offsets[j] += insertion.length
